@@ -268,20 +268,26 @@ impl Prop for C02 {
 		}
 		// every LENGTH 0..=1100 of every component (length-dependent special cases are not only at powers of two),
 		// then every 97th length up to 70 000
-		let lens: Vec<usize> = (0..=1100usize).chain((1100..70_000).step_by(97)).collect();
+		let lens: Vec<usize> = gen::sweep_lengths(2200, 70_000);
 		for (i, n) in lens.iter().enumerate() {
 			if i % nshards != shard {
 				continue;
 			}
 			let x = "x".repeat(*n);
-			for (k, text) in [format!("s://u@h/p?q#{x}"), format!("s://u@h/p?{x}#f"), format!("s://u@h/{x}?q#f"), format!("s://{x}@h/p?q#f"), format!("s://u@{x}:1/p?q#f"), format!("{x}/p?q#f"), format!("//h/a/{x}/b?{x}#{x}")].into_iter().enumerate() {
+			// the components that are NOT being stretched are delimiter-rich (a second '?', '/', ':' and '@' where allowed)
+			let sch = if *n == 0 { "s".to_string() } else { format!("s{}", &x[1..]) };
+			for (k, text) in [
+				format!("s://u@h/p?q?r/s:@#{x}"), format!("s://u@h/p?{x}#f?g/h:@"), format!("s://u:v@h:1/{x}?q?r#f?g"), format!("s://{x}@h/p?q#f"), format!("s://u@{x}:1/p?q#f"), format!("{x}/p:q?q?r#f"),
+				format!("//h/a/{x}/b?{x}#{x}"), format!("{sch}://u@h:1/p?q?r#f?g"), format!("{sch}:p?q#f"), format!("s://h/{x}?a=1?b=2"), format!("s://h?{x}?a=1?b=2#f#"), format!("s://u@h:{d}/p?q", d = "1".repeat(*n)),
+			].into_iter().enumerate() {
+				let text = if text.ends_with("#f#") { text[..text.len() - 1].to_string() } else { text };
 				let fam = if (i + k) % 2 == 0 { Fam::Uri } else { Fam::Iri };
 				if !f(Case { fam, text }, false) {
 					return vec![];
 				}
 			}
 		}
-		vec!["every ucschar / iprivate scalar value in every component slot it is allowed in (IRI family)", "every component length 0..=1100 (and every 97th up to 70 000) for fragment, query, path, user info, host, first segment"]
+		vec!["every ucschar / iprivate scalar value in every component slot it is allowed in (IRI family)", "every component length 0..=2200, every 97th up to 70 000 and +-2 around powers of two / 1000s / 2083 / 8190 / 10 240 k / 65 535, for fragment, query, path, user info, host, port, first segment and scheme, the other components being delimiter-rich"]
 	}
 
 	fn floors(_tier: Tier) -> Vec<(&'static str, u64)> {
